@@ -75,9 +75,10 @@ Lemma np_set_ep b s : wfm s -> npost s (set_ep b s) T_.
 Proof. intros W. unfold set_ep. apply npost_regs; cbn [hp st g_slots scap acc ip with_ep]; auto; try lia. exact I. Qed.
 Lemma np_set_sp b s : wfm s -> npost s (set_sp b s) T_.
 Proof. intros W. unfold set_sp. apply npost_regs; cbn [hp st g_slots scap acc ip with_sp with_stack]; auto; try lia. exact I. Qed.
-Lemma np_set_ip i s : wfm s -> 1 <= snd i -> npost s (set_ip i s) (fun s' _ => ip s' = i).
+Lemma np_set_ip i s : wfm s -> 1 <= snd i -> lamcell s (fst i) -> npost s (set_ip i s) (fun s' _ => ip s' = i).
 Proof.
-  intros W Hi. unfold set_ip. apply npost_regs; cbn [hp st g_slots scap acc ip with_ip]; auto; try lia.
+  intros W Hi Hl. unfold set_ip. apply npost_regs; cbn [hp st g_slots scap acc ip with_ip]; auto; try lia.
+  intros _. split; [exact Hi|exact Hl].
 Qed.
 (* any target: a normal exit only *)
 Lemma grow0_with_ip s i : grow0 s (with_ip s i).
